@@ -63,6 +63,7 @@ def main():
             if r.status != "done":
                 problems.append("%s: %s: %s" % (q.name, r.status, (r.error or "")[:1500]))
                 continue
+            r.witness_missed = [w for w in r.witness_missed if w not in r.witness_reached]    # same label at two sites: one reachable site suffices
             if q.expect_witness and (r.witness_missed or not r.witness_reached):
                 problems.append("%s: vacuity: witness not reachable: %s" % (q.name, r.witness_missed or "none declared"))
             for p in r.unwind_failed:
